@@ -568,24 +568,33 @@ def url_cases(rng, tier):
             c = emit(u, rel)
             if c:
                 yield c
-    # 2. every path of 0..3 (quick) / 0..4 (thorough) segments over the vocabulary, query sets cycled
+    # 2. every path of 0..3 (quick) / 0..4 (thorough) segments over the vocabulary, query sets cycled;
+    #    thorough: a seeded sample of the paths of 5 segments; short paths also as relative urls
     segs = SEGS_QUICK
     maxlen = 3 if quick else 4
     i = 0
     for n in range(0, maxlen + 1):
         for combo in itertools.product(segs, repeat=n):
-            if n == maxlen and not quick and i % 3:
-                # thorough, longest paths: 1 in 3 (the stream is still > 100k paths)
-                i += 1
-                continue
             i += 1
             for trail in ((False, True) if n <= 2 else (bool(i % 2),)):
                 q = QUERY_SETS[i % len(QUERY_SETS)] if n > 1 else None
                 for qq in (QUERY_SETS if q is None else [q, ""]):
-                    u = "https://www.facebook.com" + _path(combo, trail) + ("?" + qq if qq else "")
-                    c = emit(u, False)
+                    p = _path(combo, trail) + ("?" + qq if qq else "")
+                    c = emit("https://www.facebook.com" + p, False)
                     if c:
                         yield c
+                    if n <= 2 and (n < 2 or i % 4 == 0):
+                        for rp in (p, p[1:]):
+                            c = emit(rp, True)
+                            if c:
+                                yield c
+    if not quick:
+        for _ in range(120000):
+            combo = [rng.choice(segs) for _ in range(5)]
+            q = rng.choice(QUERY_SETS)
+            c = emit("https://www.facebook.com" + _path(combo, rng.random() < 0.5) + ("?" + q if q else ""), False)
+            if c:
+                yield c
     # 3. paths of 0..1 segments x every query of 0..2 items (quick: 0..1 items, 2 items sampled)
     allq1 = _queries(1)
     allq2 = _queries(2)
@@ -614,7 +623,7 @@ def url_cases(rng, tier):
                 if c:
                     yield c
     # 5. seeded random: longer paths over the wider vocabulary, 0..3 query items, odd hosts
-    n = 4000 if quick else 60000
+    n = 15000 if quick else 200000
     wide = SEGS_QUICK + SEGS_EXTRA
     items = ["%s=%s" % (k, v) for k in QKEYS for v in QVALS] + QKEYS
     for _ in range(n):
